@@ -127,10 +127,13 @@ func (fn bindFunctionObject) construct(argumentList []Value) Value {
 			// 15.3.4.5.2 step 2: the target has no [[Construct]] internal method
 			panic(fn.target.runtime.panicTypeError("%v is not a constructor", objectValue(obj)))
 		}
-		return value.construct(obj, fn.argumentList)
+		return value.construct(obj, append(fn.argumentList[:len(fn.argumentList):len(fn.argumentList)], argumentList...))
 	case nodeFunctionObject:
-		argumentList = append(fn.argumentList, argumentList...)
+		argumentList = append(fn.argumentList[:len(fn.argumentList):len(fn.argumentList)], argumentList...)
 		return obj.construct(argumentList)
+	case bindFunctionObject:
+		// a bound function whose target is a bound function (15.3.4.5.2 step 4-5)
+		return value.construct(append(fn.argumentList[:len(fn.argumentList):len(fn.argumentList)], argumentList...))
 	default:
 		panic(fn.target.runtime.panicTypeError("construct unknown type %T", obj.value))
 	}
